@@ -22,7 +22,7 @@ THEOREM_FILE = "Props/C17.v"
 CHK_MODULE = "Check.Chk_C17"
 CASE_TYPE = "Chk_C17.case"
 CHECK_FN = "Chk_C17.check_case"
-HEADER = "From Ropt Require Import Model.Sampler.\nImport Chk_C17."
+HEADER = "From Coq Require Import Uint63.\nFrom Ropt Require Import Model.Sampler.\nImport Chk_C17."
 SHARD_SIZE = 40
 PARALLEL = True
 CASE_TIMEOUT = 60
@@ -249,7 +249,7 @@ def run_impl(case):
 
 # ---- Gallina printing -----------------------------------------------------------
 def fq(x) -> str:
-    """Finite float as (F m e) = m * 2^-e (exact)."""
+    """Finite float as (Fi sign m e) / (F m e) = +-m * 2^-e (exact)."""
     x = float(x)
     if math.isnan(x) or math.isinf(x):
         raise ValueError("not finite")
@@ -258,6 +258,8 @@ def fq(x) -> str:
     e = d.bit_length() - 1
     if d != 1 << e:
         raise ValueError("denominator is not a power of two")
+    if abs(n) < 1 << 62:
+        return f"(Fi {'true' if n < 0 else 'false'} {abs(n)} {e})"
     return f"(F ({n}) {e})" if n < 0 else f"(F {n} {e})"
 
 
